@@ -1,3 +1,5 @@
+//go:build !skip_c15
+
 package main
 
 // C15 — challenge material goes only to the matching validation request, on any node.
